@@ -230,10 +230,13 @@ pub fn run(ctx: &Ctx) -> Report {
 }
 
 /// replay of a Decode case with expectation "canonical"
-pub fn replay_decode(suite: &str, kind: Kind, bytes: &[u8]) -> Option<String> {
+pub fn replay_decode(suite: &str, kind: Kind, bytes: &[u8], note: &str) -> Option<String> {
     let s = crate::suite::suite_by_name(suite)?;
     let total = crate::layout::total_len(kind, &s.lens());
     let (acc, bad) = judge_bytes(s, kind, bytes);
+    if note == "valid" && !acc {
+        return Some("a valid encoding produced by serialize() is rejected by deserialize()".into());
+    }
     match (acc, bad) {
         (true, Some(d)) => Some(d),
         (true, None) if bytes.len() != total => Some(format!("accepted a {}-byte input, fixed length is {}", bytes.len(), total)),
